@@ -1,4 +1,5 @@
 import PB.Gen.DbTime
+import PB.Gen.DbAcc
 /-
 Model of the portbase-owned layers of /repo/database (C02, C03):
 
@@ -70,9 +71,74 @@ end Meta
 
 /-! ## record payloads and the two accessors -/
 
-/-- Scalar values of the harness schema. Floats are exact decimals in thousandths (`flt 1500` = 1.5):
-    every value and operand the tie generates is such a decimal of small magnitude, on which float64
-    comparison coincides with comparison of the thousandths. -/
+/-! ### Go numbers: `int64` wrap-around and `float64` rounding
+
+Numbers are exact decimals in thousandths (`1500` = 1.5). Two classes:
+
+* **integral** values (`m % 1000 = 0`, any magnitude): `int64` fields and operands over the whole `int64` range,
+  `float64` fields / operands that hold an integer (2^53, 2^62, 2^63 …), JSON numbers written as integer
+  literals. Their conversion to `float64` (`strconv.ParseFloat`, `float64(int64)`) is modelled exactly: round to
+  53 significant bits, ties to even (`f64Nat`).
+* **fractional** values: of small magnitude only (|value| < 10^12, enforced by the protocol parser, which answers
+  `bad-op` otherwise); on those, float64 comparison coincides with comparison of the thousandths and the
+  truncation `int64(f)` with truncation of the decimal, so the model keeps the decimal. -/
+
+/-- 2^53: below it every integer is a float64. -/
+def two53 : Nat := 9007199254740992
+
+/-- How many low bits the conversion to float64 drops from `n` (53 significant bits remain). `fuel ≥ n` always
+    suffices; the recursion ends after `log2 n - 52` steps. -/
+def f64Exp : Nat → Nat → Nat
+  | 0, _ => 0
+  | fuel + 1, n => if n < two53 then 0 else f64Exp fuel (n / 2) + 1
+
+/-- The float64 nearest to the natural number `n`, ties to even (IEEE-754 round-to-nearest-even on an integer;
+    exact below 2^1024 where float64 overflows — the protocol's numbers stay below 2^70). -/
+def f64Nat (n : Nat) : Nat :=
+  let e := f64Exp n n
+  let q := n / 2 ^ e
+  let r := n % 2 ^ e
+  let q' := if 2 * r > 2 ^ e ∨ (2 * r = 2 ^ e ∧ q % 2 = 1) then q + 1 else q
+  q' * 2 ^ e
+
+def f64Int (i : Int) : Int :=
+  if i < 0 then -((f64Nat i.natAbs : Nat) : Int) else ((f64Nat i.natAbs : Nat) : Int)
+
+/-- The float64 value (in thousandths) of the decimal `m / 1000`: `strconv.ParseFloat` of a JSON number or of a
+    query operand, `float64(v)` of an integer operand. -/
+def f64m (m : Int) : Int := if m % 1000 = 0 then f64Int (m / 1000) * 1000 else m
+
+/-- Two's-complement `int64` of an integer (what arithmetic that overflows leaves behind). -/
+def wrap64 (i : Int) : Int := (i + 9223372036854775808) % 18446744073709551616 - 9223372036854775808
+
+/-- Go's `int64(f)` of a float64 (in thousandths): truncation toward zero; outside the `int64` range the result
+    is what amd64's CVTTSD2SQ answers, the "integer indefinite" -2^63. -/
+def truncToInt64 (f : Int) : Int :=
+  let t := Int.tdiv f 1000
+  if t < -9223372036854775808 ∨ t > 9223372036854775807 then -9223372036854775808 else t
+
+/-- `gjson.Result.Int()` on a JSON number with value `m / 1000`, as written in gjson.go:
+    `safeInt(t.Num)` — the float64 if it lies within ±(2^53-1); else `parseInt(t.Raw)` — the raw text if it is
+    an integer literal (encoding/json writes every integral number below 1e21 as one), digits accumulated in an
+    `int64`; else `int64(t.Num)`. -/
+def gjsonInt (m : Int) : Int :=
+  let f := f64m m
+  if f < -9007199254740991000 ∨ f > 9007199254740991000 then
+    if m % 1000 = 0 then wrap64 (m / 1000) else truncToInt64 f
+  else Int.tdiv f 1000
+
+/-- What `JSONBytesAccessor.GetInt` makes of the gjson result — the conversion found in the source on this run
+    (`PB.Gen.DbAcc.jsonIntVia`, regenerated by harness/cmd/extract/dbacc.go): 0 = `result.Int()`,
+    otherwise `int64(result.Num)`. -/
+def jsonNumToInt (m : Int) : Int :=
+  if PB.Gen.DbAcc.jsonIntVia = 0 then gjsonInt m else truncToInt64 (f64m m)
+
+/-- What `JSONBytesAccessor.GetFloat` makes of it: `result.Float()` / `result.Num` (0 / 1, the same float64),
+    otherwise `float64(result.Int())`. -/
+def jsonNumToFloat (m : Int) : Int :=
+  if PB.Gen.DbAcc.jsonFloatVia ≤ 1 then f64m m else f64m (gjsonInt m * 1000)
+
+/-- Scalar values of the harness schema. Floats are exact decimals in thousandths (`flt 1500` = 1.5). -/
 inductive Prim where
   | str (s : String)
   | int (i : Int)
@@ -87,6 +153,12 @@ inductive Val where
   deriving DecidableEq, Repr, Inhabited
 
 abbrev Fields := List (String × Val)
+
+/-- What a Go value of that kind can hold: an `int64` is in range, a `float64` is a float64. -/
+def Prim.goValue : Prim → Prop
+  | .int i => -9223372036854775808 ≤ i ∧ i ≤ 9223372036854775807
+  | .flt m => f64m m = m
+  | _ => True
 
 /-- How a record object is held: typed Go struct, `record.Wrapper` with JSON data, wrapper with any other
     format (no accessor). -/
@@ -163,17 +235,18 @@ def View.getString : View → Sel → Option String
   | .json fs, sel => match jsonGet fs sel with | some (.str s) => some s | _ => none
   | .nil, _ => none
 
-/-- `GetInt`: struct accessor insists on an integer kind; the JSON accessor accepts every JSON number and
-    truncates toward zero (`gjson.Result.Int`). -/
+/-- `GetInt`: struct accessor insists on an integer kind (`field.Int()`, exact); the JSON accessor accepts every
+    JSON number and converts it as `gjson.Result.Int` does (`jsonNumToInt`). -/
 def View.getInt : View → Sel → Option Int
   | .struct fs, sel => match structGet fs sel with | some (.prim (.int i)) => some i | _ => none
-  | .json fs, sel => match jsonGet fs sel with | some (.num m) => some (Int.tdiv m 1000) | _ => none
+  | .json fs, sel => match jsonGet fs sel with | some (.num m) => some (jsonNumToInt m) | _ => none
   | .nil, _ => none
 
-/-- `GetFloat` (in thousandths): struct accessor insists on a float kind; JSON accepts every number. -/
+/-- `GetFloat` (in thousandths): struct accessor insists on a float kind (`field.Float()`, the float64 the field
+    holds); JSON accepts every number and parses it as a float64 (`jsonNumToFloat`). -/
 def View.getFloat : View → Sel → Option Int
   | .struct fs, sel => match structGet fs sel with | some (.prim (.flt m)) => some m | _ => none
-  | .json fs, sel => match jsonGet fs sel with | some (.num m) => some m | _ => none
+  | .json fs, sel => match jsonGet fs sel with | some (.num m) => some (jsonNumToFloat m) | _ => none
   | .nil, _ => none
 
 def View.getBool : View → Sel → Option Bool
@@ -225,7 +298,7 @@ inductive Leaf where
 
 def Leaf.eval (v : View) (sel : Sel) : Leaf → Bool
   | .intCmp c x => match v.getInt sel with | some a => c.eval a x | none => false
-  | .fltCmp c x => match v.getFloat sel with | some a => c.eval a x | none => false
+  | .fltCmp c x => match v.getFloat sel with | some a => c.eval a (f64m x) | none => false   -- `newFloatCondition` keeps a float64
   | .strOp o x => match v.getString sel with | some a => o.eval a x | none => false
   | .inList vs => match v.getString sel with | some a => vs.contains a | none => false
   | .re s e lit => match v.getString sel with
@@ -286,6 +359,10 @@ def Leaf.typedFor (fs : Fields) (sel : Sel) (l : Leaf) : Prop :=
      | .is _, some (.prim (.bool _)) => True
      | _, _ => False)
   | _ => False
+
+/-- The root-level scalar fields hold Go values (an `int64` field cannot hold 2^63, a `float64` field cannot hold
+    2^53 + 1). -/
+def goValues (fs : Fields) : Prop := ∀ name p, lookup name fs = some (.prim p) → p.goValue
 
 def Cond.typedFor (fs : Fields) : Cond → Prop
   | .leaf sel l => l.typedFor fs sel
